@@ -217,6 +217,15 @@ def check_lines(text, width, prefix, ctx, case, allow_no_break=False):
         if len(ln) <= width:
             continue
         code, cmt = fflex.split_trailing_comment(ln)
+        if ln.lstrip().startswith('!$'):
+            # a directive is re-assembled word by word by the backend: over-long only if it holds a single word
+            words = [w for w in ln.split()[1:] if w != '&']
+            if len(words) > 1:
+                bad += 1
+                ctx.fail(f'C04:{prefix}:line-too-long:directive-with-break-point', case, f'width {width}, line of {len(ln)} columns: {ln[:300]!r}')
+            else:
+                ctx.count(f'{prefix}:overlong-allowed:single-token')
+            continue
         if cmt is not None and len(code.rstrip()) <= width:
             ctx.count(f'{prefix}:overlong-allowed:comment')
             continue
@@ -373,8 +382,70 @@ def is_nontrivial(text):
     return False
 
 
-GF_SYNTAX = ['-fsyntax-only', '-w', '-ffree-line-length-132', '-Werror=line-truncation']
-GF_SYNTAX_REF = ['-fsyntax-only', '-w', '-ffree-line-length-none']
+def logical_statements(text):
+    """physical lines grouped into statements (a line whose code ends in '&' is continued by the next line)"""
+    groups, cur = [], []
+    for ln in text.split('\n'):
+        cur.append(ln)
+        code, _ = fflex.split_trailing_comment(ln)
+        if not code.rstrip().endswith('&') and not (ln.lstrip().startswith('!$') and ln.rstrip().endswith('&')):
+            groups.append('\n'.join(cur))
+            cur = []
+    if cur:
+        groups.append('\n'.join(cur))
+    return groups
+
+
+def is_one_line_where(stmt):
+    t = stmt.lstrip()
+    if not t.upper().startswith('WHERE'):
+        return False
+    i = t.find('(')
+    if i < 0:
+        return False
+    d = 0
+    for j in range(i, len(t)):
+        d += t[j] == '('
+        d -= t[j] == ')'
+        if d == 0:
+            return bool(t[j + 1:].strip())
+    return False
+
+
+def compare_tokens(out, ref):
+    """None if the wrapped text has the tokens of the unwrapped text, else (root-cause name, detail)"""
+    try:
+        tref = fflex.lex(ref)
+    except fflex.LexError:
+        return ('reference-not-lexable', '')
+    try:
+        tout = fflex.lex(out)
+        if tout == tref:
+            return None
+    except fflex.LexError:
+        tout = None
+    # locate the statement: the unwrapped text holds one statement per line
+    gs, rs = logical_statements(out), ref.split('\n')
+    if len(gs) == len(rs):
+        for gtext, rline in zip(gs, rs):
+            try:
+                a = fflex.lex(gtext)
+            except fflex.LexError as e:
+                a = None
+                msg = str(e)
+            b = fflex.lex(rline)
+            if a != b:
+                where = ':in-one-line-where' if is_one_line_where(rline) else ''
+                if a is None:
+                    return ('wrapped-text-not-lexable' + where, f'{msg}; statement {gtext[:500]!r}')
+                return (classify_token_difference(a, b) + where, token_diff(a, b) + f'; statement {gtext[:500]!r}')
+    if tout is None:
+        return ('wrapped-text-not-lexable', 'statement boundaries differ as well')
+    return (classify_token_difference(tout, tref), token_diff(tout, tref))
+
+
+GF_SYNTAX = ['-fsyntax-only', '-ffree-line-length-132', '-Werror=line-truncation']
+GF_SYNTAX_REF = ['-fsyntax-only', '-ffree-line-length-none']
 
 
 def gfortran_accepts(name, text, flags):
@@ -386,8 +457,12 @@ def check_prog(case, ctx, compile_check=True):
     from loki import Sourcefile
     from loki.backend import fgen
     from loki.frontend import FP
-    rendered = harness.render_case(case)
-    r = rendered[0]
+    if 'text' in case:
+        r = {'name': 'kmod.f90', 'text': case['text']}
+    else:
+        r = harness.render_case(case)[0]
+    for reason, n in (case.get('excluded') or {}).items():
+        ctx.exclude(reason, n)
     classes = ['prog'] + [f'p:{f}' for f in case.get('long', []) if not f.startswith('renamed')] + \
         [f'p:{f}' for f in case.get('long', []) if f.startswith('renamed')]
     try:
@@ -411,22 +486,19 @@ def check_prog(case, ctx, compile_check=True):
         if len(ctx.samples) < 3 and name == 'default' and is_nontrivial(out) and ctx.evaluations % 7 == 3:
             ctx.sample({'style': name, 'wrapped_statements': [x for x in wrapped_groups(out) if "'" in x or '"' in x][:3]})
         # (1) line rule
-        check_lines(out, width, 'prog', ctx, case)
+        text_bad = check_lines(out, width, 'prog', ctx, case) > 0
         # (2) token identity
-        try:
-            tref = fflex.lex(ref)
-        except fflex.LexError as e:
-            ctx.reject(f'unwrapped-output-not-lexable:{e}'[:80], None)
-            continue
-        try:
-            tout = fflex.lex(out)
-        except fflex.LexError as e:
-            ctx.fail('C04:prog:tokens:wrapped-text-not-lexable', case, f'{e}')
-            continue
-        if tout != tref:
-            ctx.fail(f'C04:prog:tokens:{classify_token_difference(tout, tref)}', case, token_diff(tout, tref))
+        verdict = compare_tokens(out, ref)
+        if verdict is not None:
+            kind, detail = verdict
+            if kind == 'reference-not-lexable':
+                ctx.reject('unwrapped-output-not-lexable', None)
+                continue
+            ctx.fail(f'C04:prog:tokens:{kind}', case, detail)
+            text_bad = True
         # (3) gfortran
-        if compile_check and width == 132 and name == 'default':
+        # (the compiler is the backstop of the two text oracles: asked only when they are silent)
+        if compile_check and width == 132 and name == 'default' and not text_bad:
             ok, err = gfortran_accepts(r['name'], out + '\n', GF_SYNTAX)
             if not ok:
                 ok_ref, _ = gfortran_accepts(r['name'], ref + '\n', GF_SYNTAX_REF)
@@ -450,16 +522,45 @@ def check_case(case, ctx):
         check_prog(case, ctx)
 
 
+ONE_LINE_WHERE_REPLAY = 'replays/C04/one-line-where-rewrapped.json'
+
+
+def known_active(path):
+    """does the committed replay of a listed finding still fail on the tree under test?"""
+    import os
+    from ..core import VERIF_DIR, Ctx
+    from .. import findings
+    if not os.path.exists(os.path.join(VERIF_DIR, path)):
+        return False
+    data = findings.load_replay(path)
+    sub = Ctx(ID, 'quick', 0)
+    check_case(data['case'], sub)
+    return data['sig'] in sub.failures
+
+
 def run_shard(ctx):
-    # the pure-Python unit part gets at most 40% of the shard's time budget, the program part the rest
+    where1 = not known_active(ONE_LINE_WHERE_REPLAY)
+    if not where1:
+        ctx.note('one-line WHERE statements are generated as WHERE constructs (listed finding one-line-where-rewrapped still reproduces)')
+    # the pure-Python unit part gets at most 40% of the shard's time budget, the program part the rest.
+    # (Hypothesis keeps generating after the budget has expired, so both parts run in small batches.)
     total = ctx.budget
     if total is not None:
         ctx.budget = 0.4 * total
-    ctx.given(unit_cases(), check_unit, ctx.scale(16000, 400000), label='unit')
+    n_unit, n_prog = ctx.scale(16000, 400000), ctx.scale(200, 4000)
+    k = 0
+    while k * 400 < n_unit and not ctx.out_of_time():
+        ctx.given(unit_cases(), check_unit, min(400, n_unit - k * 400), label=f'unit{k}')
+        k += 1
+    ctx.extra['unit_cases_planned'] = n_unit
     if total is not None:
         ctx.budget = total
         ctx.budget_exhausted = False
-    ctx.given(gen_long.cases(PROFILE), check_prog, ctx.scale(200, 4000), label='prog')
+    k = 0
+    while k * 5 < n_prog and not ctx.out_of_time():
+        ctx.given(gen_long.cases(PROFILE, where1=where1), check_prog, min(5, n_prog - k * 5), label=f'prog{k}')
+        k += 1
+    ctx.extra['prog_cases_planned'] = n_prog
 
 
 def replay(case, ctx):
